@@ -495,26 +495,28 @@ Section Sim.
     cbn [loop]. pose proof (Hline _ _ HR) as HL.
     destruct (gl1 s1) as [[l s1']|], (gl2 s2) as [[l' s2']|]; try contradiction; [|reflexivity].
     destruct HL as [<- HR1]. destruct (pop_env envs) as [e envs'].
-    assert (GO : forall it a b, R a b ->
-      (let '(st', o) := step st it in
+    assert (EM : forall it (r : sstate * out) a b, R a b ->
+      (let '(st', o) := r in
        match o_fin o with
        | Continue => let '(its, os, f) := loop S1 gl1 gd1 fuel st' envs' a in (it :: its, o :: os, f)
        | Closed => ([it], [o], SClosed)
        | Crashed => ([it], [o], SCrashed)
        end) =
-      (let '(st', o) := step st it in
+      (let '(st', o) := r in
        match o_fin o with
        | Continue => let '(its, os, f) := loop S2 gl2 gd2 fuel st' envs' b in (it :: its, o :: os, f)
        | Closed => ([it], [o], SClosed)
        | Crashed => ([it], [o], SCrashed)
        end)).
-    { intros it a b Hab. destruct (step st it) as [st' o]. destruct (o_fin o); try reflexivity.
+    { intros it [st' o] a b Hab. destruct (o_fin o); try reflexivity.
       rewrite (IH st' envs' a b Hab). reflexivity. }
     destruct (reads_data st _).
     - pose proof (Hdata (x_size (ex st)) _ _ HR1) as HD.
       destruct (gd1 _ s1') as [[d a]|], (gd2 _ s2') as [[d' b]|]; try contradiction; [|reflexivity].
-      destruct HD as [<- Hab]. destruct d; apply GO, Hab.
-    - apply GO, HR1.
+      destruct HD as [<- Hab]. destruct d; apply EM, Hab.
+    - destruct (starttls_hook st _); [|apply EM, HR1].
+      destruct (hook_out (n_tls e)) as [o|]; [|apply EM, HR1].
+      exact (EM _ (st, o) _ _ HR1).
   Qed.
 End Sim.
 
@@ -562,18 +564,18 @@ Proof.
   split; [exact NE|reflexivity].
 Qed.
 
-Lemma run_server_stream_batch mx vb envs buf chunks : Forall nonempty chunks ->
-  run_server_stream mx vb envs buf chunks = run_server_batch mx vb envs (buf ++ concat chunks).
+Lemma run_server_stream_batch mx ctx vb envs buf chunks : Forall nonempty chunks ->
+  run_server_stream mx ctx vb envs buf chunks = run_server_batch mx ctx vb envs (buf ++ concat chunks).
 Proof.
   intros NE. unfold run_server_stream, run_server_batch, session.
   destruct (finish _) as [st1 o]. destruct (o_fin o); try reflexivity.
   cbn [fst snd]. rewrite (run_stream_batch _ _ _ _ _ NE). reflexivity.
 Qed.
 
-Lemma server_segmentation_independent mx vb envs buf chunks buf' chunks' :
+Lemma server_segmentation_independent mx ctx vb envs buf chunks buf' chunks' :
   Forall nonempty chunks -> Forall nonempty chunks' ->
   buf ++ concat chunks = buf' ++ concat chunks' ->
-  run_server_stream mx vb envs buf chunks = run_server_stream mx vb envs buf' chunks'.
+  run_server_stream mx ctx vb envs buf chunks = run_server_stream mx ctx vb envs buf' chunks'.
 Proof. intros H H' E. rewrite !run_server_stream_batch by assumption. rewrite E. reflexivity. Qed.
 
 (* ---- the fuel run_server_stream uses is enough ---- *)
@@ -589,31 +591,33 @@ Proof.
   unfold run_batch. induction fuel as [|fuel IH]; intros st envs s L; [lia|].
   cbn [loop]. destruct (line_spec s) as [[raw s1]|] eqn:E; [|cbn; discriminate].
   apply line_spec_shorter in E. destruct (pop_env envs) as [e envs'].
-  assert (GO : forall it s2, (length s2 < fuel)%nat ->
-    snd (let '(st', o) := step st it in
+  assert (EM : forall it (r : sstate * out) s2, (length s2 < fuel)%nat ->
+    snd (let '(st', o) := r in
          match o_fin o with
          | Continue => let '(its, os, f) := loop bytes line_spec read_spec_lim fuel st' envs' s2 in (it :: its, o :: os, f)
          | Closed => ([it], [o], SClosed)
          | Crashed => ([it], [o], SCrashed)
          end) <> SFuel).
-  { intros it s2 L2. destruct (step st it) as [st' o]. destruct (o_fin o); try (cbn; discriminate).
+  { intros it [st' o] s2 L2. destruct (o_fin o); try (cbn; discriminate).
     specialize (IH st' envs' s2 L2). destruct (loop bytes line_spec read_spec_lim fuel st' envs' s2) as [[its os] f]. exact IH. }
   destruct (reads_data st _).
   - destruct (read_spec_lim _ s1) as [[d s2]|] eqn:R; [|cbn; discriminate].
-    apply read_spec_lim_shorter in R. destruct d; apply GO; lia.
-  - apply GO. lia.
+    apply read_spec_lim_shorter in R. destruct d; apply EM; lia.
+  - destruct (starttls_hook st _); [|apply EM; lia].
+    destruct (hook_out (n_tls e)) as [o|]; [|apply EM; lia].
+    apply (EM _ (st, o)). lia.
 Qed.
 
-Lemma run_server_batch_fuel mx vb envs s : snd (run_server_batch mx vb envs s) <> SFuel.
+Lemma run_server_batch_fuel mx ctx vb envs s : snd (run_server_batch mx ctx vb envs s) <> SFuel.
 Proof.
   unfold run_server_batch, session. destruct (finish _) as [st1 o]. destruct (o_fin o); try (cbn; discriminate).
   pose proof (run_batch_fuel (enough_fuel s) st1 envs s) as F. unfold enough_fuel in *.
   destruct (run_batch _ st1 envs s) as [[its os] f]. apply F. lia.
 Qed.
 
-Lemma run_server_stream_fuel mx vb envs buf chunks : Forall nonempty chunks ->
-  snd (run_server_stream mx vb envs buf chunks) <> SFuel.
-Proof. intros NE. rewrite (run_server_stream_batch _ _ _ _ _ NE). apply run_server_batch_fuel. Qed.
+Lemma run_server_stream_fuel mx ctx vb envs buf chunks : Forall nonempty chunks ->
+  snd (run_server_stream mx ctx vb envs buf chunks) <> SFuel.
+Proof. intros NE. rewrite (run_server_stream_batch _ _ _ _ _ _ NE). apply run_server_batch_fuel. Qed.
 
 (* ---- connection with C07: the items the front end produced, fed to run_session, give the same outputs ---- *)
 Definition fin_of (f : sfin) : fin :=
@@ -621,20 +625,34 @@ Definition fin_of (f : sfin) : fin :=
 
 Definition complete (f : sfin) : Prop := f = SClosed \/ f = SCrashed \/ f = SLost.
 
+(* no handlers.STARTTLS hook interferes (the real SmtpSession has none): C07's setting *)
+Definition no_hook (envs : list env) : Prop := Forall (fun e => n_tls e = VKeep) envs.
+
+Lemma pop_env_no_hook envs e envs' : no_hook envs -> pop_env envs = (e, envs') -> n_tls e = VKeep /\ no_hook envs'.
+Proof.
+  unfold no_hook. destruct envs as [|e0 envs0]; cbn [pop_env]; intros H E; injection E as <- <-.
+  - split; [reflexivity|constructor].
+  - inversion H; subst. split; assumption.
+Qed.
+
+Lemma hook_out_keep : hook_out VKeep = None.
+Proof. reflexivity. Qed.
+
 Section Conn.
   Variable S : Type.
   Variable gl : S -> option (bytes * S).
   Variable gd : option N -> S -> option (option bytes * S).
 
   Lemma loop_run_loop : forall fuel st envs s its os f,
+    no_hook envs ->
     loop S gl gd fuel st envs s = (its, os, f) -> complete f ->
     exists stf, run_loop st its = (os, stf, fin_of f).
   Proof.
-    induction fuel as [|fuel IH]; intros st envs s its os f.
+    induction fuel as [|fuel IH]; intros st envs s its os f NH.
     - cbn [loop]. intros H [C|[C|C]]; injection H as <- <- <-; discriminate.
     - cbn [loop]. destruct (gl s) as [[raw s1]|].
       2:{ intros H _. injection H as <- <- <-. exists st. reflexivity. }
-      destruct (pop_env envs) as [e envs'].
+      destruct (pop_env envs) as [e envs'] eqn:PE. destruct (pop_env_no_hook _ _ _ NH PE) as [He NH'].
       assert (GO : forall it s2,
         (let '(st', o) := step st it in
          match o_fin o with
@@ -644,7 +662,7 @@ Section Conn.
          end) = (its, os, f) -> complete f -> exists stf, run_loop st its = (os, stf, fin_of f)).
       { intros it s2. destruct (step st it) as [st' o] eqn:ST. destruct (o_fin o) eqn:OF.
         - destruct (loop S gl gd fuel st' envs' s2) as [[its' os'] f'] eqn:L.
-          intros H C. injection H as <- <- <-. destruct (IH _ _ _ _ _ _ L C) as [stf R].
+          intros H C. injection H as <- <- <-. destruct (IH _ _ _ _ _ _ NH' L C) as [stf R].
           exists stf. cbn [run_loop]. rewrite ST, OF, R. reflexivity.
         - intros H _. injection H as <- <- <-. exists st'. cbn [run_loop]. rewrite ST, OF. reflexivity.
         - intros H _. injection H as <- <- <-. exists st'. cbn [run_loop]. rewrite ST, OF. reflexivity. }
@@ -652,20 +670,21 @@ Section Conn.
       + destruct (gd _ s1) as [[d s2]|].
         * destruct d; apply GO.
         * intros H [C|[C|C]]; injection H as <- <- <-; discriminate.
-      + apply GO.
+      + rewrite He, hook_out_keep. destruct (starttls_hook st _); apply GO.
   Qed.
 
   (* a session cut off inside the message content: everything before the DATA line is a
      complete C07 run, the DATA line was accepted there *)
   Lemma loop_run_loop_in_data : forall fuel st envs s its os,
+    no_hook envs ->
     loop S gl gd fuel st envs s = (its, os, SLostInData) ->
     exists its0 os0 it stf, its = its0 ++ [it] /\ os = os0 ++ [data_started]
       /\ run_loop st its0 = (os0, stf, Continue) /\ reads_data stf it = true.
   Proof.
-    induction fuel as [|fuel IH]; intros st envs s its os.
+    induction fuel as [|fuel IH]; intros st envs s its os NH.
     - cbn [loop]. discriminate.
     - cbn [loop]. destruct (gl s) as [[raw s1]|]; [|discriminate].
-      destruct (pop_env envs) as [e envs'].
+      destruct (pop_env envs) as [e envs'] eqn:PE. destruct (pop_env_no_hook _ _ _ NH PE) as [He NH'].
       assert (GO : forall it s2,
         (let '(st', o) := step st it in
          match o_fin o with
@@ -677,56 +696,60 @@ Section Conn.
           /\ run_loop st its0 = (os0, stf, Continue) /\ reads_data stf it = true).
       { intros it s2. destruct (step st it) as [st' o] eqn:ST. destruct (o_fin o) eqn:OF; [|discriminate|discriminate].
         destruct (loop S gl gd fuel st' envs' s2) as [[its' os'] f'] eqn:L.
-        intros H. injection H as <- <- ->. destruct (IH _ _ _ _ _ L) as (its0 & os0 & it1 & stf & -> & -> & R & D).
+        intros H. injection H as <- <- ->. destruct (IH _ _ _ _ _ NH' L) as (its0 & os0 & it1 & stf & -> & -> & R & D).
         exists (it :: its0), (o :: os0), it1, stf. repeat split; [| exact D].
         cbn [run_loop]. rewrite ST, OF, R. reflexivity. }
       destruct (reads_data st _) eqn:RD.
       + destruct (gd _ s1) as [[d s2]|].
         * destruct d; apply GO.
         * intros H. injection H as <- <-. eexists [], [], _, st. repeat split. exact RD.
-      + apply GO.
+      + rewrite He, hook_out_keep. destruct (starttls_hook st _); apply GO.
   Qed.
 End Conn.
 
 Lemma out_eta o : {| o_replies := o_replies o; o_events := o_events o; o_fin := o_fin o |} = o.
 Proof. destruct o; reflexivity. Qed.
 
-Lemma run_session_stream_cfg mx vb its :
-  run_session (stream_cfg mx) vb its =
-  let '(st2, o) := finish (command_BANNER vb (init_state (stream_cfg mx))) in
+Lemma run_session_stream_cfg mx ctx vb its :
+  run_session (stream_cfg mx ctx) vb its =
+  let '(st2, o) := finish (command_BANNER vb (init_state (stream_cfg mx ctx))) in
   match o_fin o with
   | Continue => let '(os, stf, f) := run_loop st2 its in (o :: os, stf, f)
   | f => ([o], st2, f)
   end.
 Proof.
-  unfold run_session. change (cfg_context (stream_cfg mx)) with false. cbn [andb app].
-  destruct (finish (command_BANNER vb (init_state (stream_cfg mx)))) as [st2 o].
+  unfold run_session. change (cfg_tls_immediately (stream_cfg mx ctx)) with false.
+  rewrite !andb_false_r. cbn [andb app].
+  destruct (finish (command_BANNER vb (init_state (stream_cfg mx ctx)))) as [st2 o].
   rewrite out_eta. reflexivity.
 Qed.
 
-Lemma stream_refines_session mx vb envs buf chunks its os f :
-  run_server_stream mx vb envs buf chunks = (its, os, f) -> complete f ->
-  exists stf, run_session (stream_cfg mx) vb its = (os, stf, fin_of f).
+(* for a handlers object without a STARTTLS hook (the real SmtpSession: C07's setting) *)
+Lemma stream_refines_session mx ctx vb envs buf chunks its os f :
+  no_hook envs ->
+  run_server_stream mx ctx vb envs buf chunks = (its, os, f) -> complete f ->
+  exists stf, run_session (stream_cfg mx ctx) vb its = (os, stf, fin_of f).
 Proof.
-  rewrite run_session_stream_cfg. unfold run_server_stream, session, run_stream.
-  destruct (finish (command_BANNER vb (init_state (stream_cfg mx)))) as [st1 o].
+  intros NH. rewrite run_session_stream_cfg. unfold run_server_stream, session, run_stream.
+  destruct (finish (command_BANNER vb (init_state (stream_cfg mx ctx)))) as [st1 o].
   destruct (o_fin o) eqn:OF.
   - cbn [fst snd]. destruct (loop istream inc_line inc_data (enough_fuel (buf ++ concat chunks)) st1 envs (buf, chunks)) as [[its' os'] f'] eqn:L.
     intros H C. injection H as <- <- <-.
-    destruct (loop_run_loop _ _ _ _ _ _ _ _ _ _ L C) as [stf R]. exists stf. rewrite R. reflexivity.
+    destruct (loop_run_loop _ _ _ _ _ _ _ _ _ _ NH L C) as [stf R]. exists stf. rewrite R. reflexivity.
   - intros H _. injection H as <- <- <-. exists st1. reflexivity.
   - intros H _. injection H as <- <- <-. exists st1. reflexivity.
 Qed.
 
 (* hence C07's theorems hold of the stream server; e.g. the callbacks stay in protocol order
    however the client bytes are cut *)
-Lemma stream_callbacks_in_order mx vb envs buf chunks :
-  complete (snd (run_server_stream mx vb envs buf chunks)) ->
-  accepts (events_of (snd (fst (run_server_stream mx vb envs buf chunks)))) = true.
+Lemma stream_callbacks_in_order mx ctx vb envs buf chunks :
+  no_hook envs ->
+  complete (snd (run_server_stream mx ctx vb envs buf chunks)) ->
+  accepts (events_of (snd (fst (run_server_stream mx ctx vb envs buf chunks)))) = true.
 Proof.
-  destruct (run_server_stream mx vb envs buf chunks) as [[its os] f] eqn:E. cbn [fst snd]. intros C.
-  destruct (stream_refines_session _ _ _ _ _ _ _ _ E C) as [stf R].
-  pose proof (Server_lemmas.callbacks_in_order (stream_cfg mx) vb its) as A. unfold Server_lemmas.all_events in A. rewrite R in A. exact A.
+  intros NH. destruct (run_server_stream mx ctx vb envs buf chunks) as [[its os] f] eqn:E. cbn [fst snd]. intros C.
+  destruct (stream_refines_session _ _ _ _ _ _ _ _ _ NH E C) as [stf R].
+  pose proof (Server_lemmas.callbacks_in_order (stream_cfg mx ctx) vb its) as A. unfold Server_lemmas.all_events in A. rewrite R in A. exact A.
 Qed.
 
 (* ---- the front end's DATA decision is C07's ---- *)
@@ -862,6 +885,43 @@ Proof.
     + split; [reflexivity|]. apply zero_not_too_big.
 Qed.
 
+(* ---- STARTTLS that does not lead to a handshake leaves the stream alone ---- *)
+Lemma reads_data_not_starttls st it : reads_data st it = true -> starttls_hook st it = false.
+Proof. unfold reads_data, starttls_hook. destruct (classify (it_line it)); try discriminate. reflexivity. Qed.
+
+(* A STARTTLS line the handlers.STARTTLS hook refuses (any code but 220 that does not close the
+   session): whatever the client pipelined behind it - in the same recv() or later - is the
+   input of the following commands, all of it; the session state is unchanged. *)
+Lemma starttls_refused_batch fuel st en envs l rest o :
+  nolf l = true ->
+  starttls_hook st (mk_item en (parse_line (strip_cr l)) [] 0) = true ->
+  hook_out (n_tls en) = Some o -> o_fin o = Continue ->
+  run_batch (S fuel) st (en :: envs) (l ++ 10 :: rest) =
+  (let '(its, os, f) := run_batch fuel st envs rest in
+   (mk_item en (parse_line (strip_cr l)) [] 0 :: its, o :: os, f)).
+Proof.
+  intros Hl SH HO OF. unfold run_batch. cbn [loop]. rewrite (line_spec_line _ _ Hl). cbn [pop_env].
+  destruct (reads_data st _) eqn:RD; [apply reads_data_not_starttls in RD; rewrite RD in SH; discriminate|].
+  rewrite SH, HO, OF. reflexivity.
+Qed.
+
+Lemma starttls_refused fuel st en envs l rest o buf chunks :
+  Forall nonempty chunks -> buf ++ concat chunks = l ++ 10 :: rest ->
+  nolf l = true ->
+  starttls_hook st (mk_item en (parse_line (strip_cr l)) [] 0) = true ->
+  hook_out (n_tls en) = Some o -> o_fin o = Continue ->
+  run_stream (S fuel) st (en :: envs) buf chunks =
+  (let '(its, os, f) := run_stream fuel st envs rest [] in
+   (mk_item en (parse_line (strip_cr l)) [] 0 :: its, o :: os, f)).
+Proof.
+  intros NE E Hl SH HO OF. rewrite (run_stream_batch _ _ _ _ _ NE), E.
+  rewrite (run_stream_batch fuel st envs rest [] (Forall_nil _)). cbn [concat]. rewrite app_nil_r.
+  apply starttls_refused_batch; assumption.
+Qed.
+
+(* the other clear-text arms (not offered 500, argument 501, before EHLO 503) are arms of C07's
+   `step`, which never sees the stream: covered by run_stream_batch like every other command *)
+
 (* ====================================================================== *)
 (* D. examples: the hypotheses are satisfiable by non-trivial values       *)
 (* ====================================================================== *)
@@ -881,7 +941,7 @@ Proof. induction s as [|b s IH]; [reflexivity|]. unfold bytewise in *. cbn [map 
 Example ex_segmentation_hyps :
   Forall nonempty [ex_stream] /\ Forall nonempty (bytewise (skipn 3 ex_stream))
   /\ [] ++ concat [ex_stream] = firstn 3 ex_stream ++ concat (bytewise (skipn 3 ex_stream))
-  /\ observable (run_server_stream (Some 100) VKeep [] [] [ex_stream]) =
+  /\ observable (run_server_stream (Some 100) false VKeep [] [] [ex_stream]) =
      ([220; 250; 250; 250; 354; 250; 250; 221],
       [EvCall KBanner [] [] (Some 220); EvCall KEhlo [97] [] (Some 250);
        EvCall KMail [115] [] (Some 250); EvCall KRcpt [114] [] (Some 250);
@@ -895,26 +955,26 @@ Qed.
 (* limit 20 (the message has 27 bytes up to and including its end-of-data line): 552, no
    content, and still exactly NOOP and QUIT are executed next - for every segmentation *)
 Example ex_over_size :
-  observable (run_server_stream (Some 20) VKeep [] [] [ex_stream]) =
+  observable (run_server_stream (Some 20) false VKeep [] [] [ex_stream]) =
     ([220; 250; 250; 250; 354; 552; 250; 221],
      [EvCall KBanner [] [] (Some 220); EvCall KEhlo [97] [] (Some 250);
       EvCall KMail [115] [] (Some 250); EvCall KRcpt [114] [] (Some 250);
       EvCall KData [] [] (Some 354); EvCall KHaveData [] [] (Some 552)], SClosed)
-  /\ run_server_stream (Some 20) VKeep [] (firstn 40 ex_stream) (bytewise (skipn 40 ex_stream))
-     = run_server_stream (Some 20) VKeep [] [] [ex_stream].
+  /\ run_server_stream (Some 20) false VKeep [] (firstn 40 ex_stream) (bytewise (skipn 40 ex_stream))
+     = run_server_stream (Some 20) false VKeep [] [] [ex_stream].
 Proof. split; vm_compute; reflexivity. Qed.
 
 (* empty message, pipelined *)
 Example ex_empty_message :
   let s := firstn 42 ex_stream ++ [46; 13; 10] ++ skipn 70 ex_stream in   (* ... DATA . NOOP QUIT *)
-  replies_of (snd (fst (run_server_stream (Some 20) VKeep [] [] [s]))) = [220; 250; 250; 250; 354; 250; 250; 221]
-  /\ map it_data (fst (fst (run_server_stream (Some 20) VKeep [] [] (bytewise s)))) = [[]; []; []; []; []; []].
+  replies_of (snd (fst (run_server_stream (Some 20) false VKeep [] [] [s]))) = [220; 250; 250; 250; 354; 250; 250; 221]
+  /\ map it_data (fst (fst (run_server_stream (Some 20) false VKeep [] [] (bytewise s)))) = [[]; []; []; []; []; []].
 Proof. cbv zeta. split; vm_compute; reflexivity. Qed.
 
 (* the state after "EHLO a", "MAIL FROM:<s>", "RCPT TO:<r>" *)
 Definition ex_line_item (raw : bytes) : item := mk_item env_default (parse_line raw) [] 0.
 Definition ex_st_tx : sstate :=
-  let st0 := fst (finish (command_BANNER VKeep (init_state (stream_cfg (Some 20))))) in
+  let st0 := fst (finish (command_BANNER VKeep (init_state (stream_cfg (Some 20) false)))) in
   let st1 := fst (step st0 (ex_line_item [69; 72; 76; 79; 32; 97])) in
   let st2 := fst (step st1 (ex_line_item [77; 65; 73; 76; 32; 70; 82; 79; 77; 58; 60; 115; 62])) in
   fst (step st2 (ex_line_item [82; 67; 80; 84; 32; 84; 79; 58; 60; 114; 62])).
@@ -951,3 +1011,21 @@ Lemma old_reader_segmentation_dependent :
   /\ dr_recv_lim (Some 9) [] [s] = DOk [97; 97; 97; 97; 13; 10] [81; 85; 73; 84; 13; 10] []
   /\ dr_recv_lim (Some 8) (firstn 3 s) [skipn 3 s] = DTooBig [81; 85; 73; 84; 13; 10] [].
 Proof. cbv zeta. repeat split; vm_compute; reflexivity. Qed.
+
+(* "EHLO a" "STARTTLS" refused with 454 by the hook, "NOOP" "QUIT" glued behind it *)
+Definition ex_tls_stream : bytes :=
+  [69; 72; 76; 79; 32; 97; 13; 10; 83; 84; 65; 82; 84; 84; 76; 83; 13; 10; 78; 79; 79; 80; 13; 10; 81; 85; 73; 84; 13; 10].
+Definition ex_hook_env : env := {| n_v1 := VKeep; n_v2 := VKeep; n_v3 := VKeep; n_q := QOk; n_tls := VCode 454 |}.
+Example ex_starttls_refused :
+  replies_of (snd (fst (run_server_stream None true VKeep [ex_hook_env; ex_hook_env] [] [ex_tls_stream]))) = [220; 250; 454; 250; 221]
+  /\ run_server_stream None true VKeep [ex_hook_env; ex_hook_env] [] (bytewise ex_tls_stream)
+     = run_server_stream None true VKeep [ex_hook_env; ex_hook_env] [] [ex_tls_stream]
+  /\ replies_of (snd (fst (run_server_stream None true VKeep [] [] [ex_tls_stream]))) = [220; 250; 220; 421]
+  /\ replies_of (snd (fst (run_server_stream None false VKeep [ex_hook_env; ex_hook_env] [] [ex_tls_stream]))) = [220; 250; 500; 250; 221].
+Proof. repeat split; vm_compute; reflexivity. Qed.
+
+Example ex_starttls_refused_hyps :
+  let st := fst (step (fst (finish (command_BANNER VKeep (init_state (stream_cfg None true))))) (ex_line_item [69; 72; 76; 79; 32; 97])) in
+  starttls_hook st (mk_item ex_hook_env (parse_line (strip_cr [83; 84; 65; 82; 84; 84; 76; 83; 13])) [] 0) = true
+  /\ exists o, hook_out (n_tls ex_hook_env) = Some o /\ o_fin o = Continue /\ o_replies o = [454].
+Proof. cbv zeta. split; [vm_compute; reflexivity|]. eexists. repeat split. Qed.
